@@ -817,6 +817,10 @@ class StoreRun:
             parent = "/" + "/".join(split(dp)[:-1])
             if fs.canonical(df, parent, partial=True) is None:
                 raise Skip("destination parent lies behind an external link or a dangling link")
+            if kind == "cp" and fs.canonical(df, parent, partial=True) != (parent if parent != "" else "/") \
+                    and parent not in ("", "/"):
+                # bound: H5Ocopy cannot address a destination through a soft link ("address undefined")
+                raise Skip("copy destination lies behind a soft link")
             if fs.lookup(df, parent) is None and fs.canonical(df, parent, partial=True) != parent:
                 # bound: libhdf5 cannot create missing intermediate groups beyond a
                 # soft link ("address undefined")
